@@ -18,8 +18,8 @@ func init() {
 	register(&Check{
 		Meta: report.Meta{
 			Property: "C16",
-			Rule: "Go function types built with reflect.FuncOf over the type alphabet {int, int8, int16, int32, int64, uint, float32, float64, bool, string, named variants of int / float64 / string / bool, struct{}, []int, error, a concrete error type, chan error, <-chan error, chan int}: " +
-				"FP: every parameter list of 0-2 (quick) / 0-3 (thorough) types plus optional variadic tail x 3 result shapes; FR: every result list of 0-2 types x 2 parameter shapes; CP / CR: the same for commands (results none / error / channel shapes); AB: a converted command abandoned by RestoreAt while its handler runs, then executed again (each call reports its own outcome); NF: non-function values {nil, 0, \"f\", struct{}{}, a channel, a pointer to a function}; " +
+			Rule: "Go function types built with reflect.FuncOf over the type alphabet {int, int8, int16, int32, int64, uint, float32, float64, bool, string, named variants of int / float64 / string / bool, struct{}, []int, error, a concrete pointer error type, a struct error type used by value, an Errno-like error type, chan error, <-chan error, chan int}: " +
+				"FP: every parameter list of 0-2 (quick) / 0-3 (thorough) types plus optional variadic tail x 3 result shapes; FR: every result list of 0-2 types x 2 parameter shapes; CP / CR: the same for commands (results none / error / channel shapes); WIDE: functions and commands of 4-12 (quick) / 16 (thorough) int parameters with one parameter of every other bridgeable type at every position, called with matching arguments, every single-argument replacement and n-1 / n+1 arguments; AB: a converted command abandoned by RestoreAt while its handler runs, then executed again (each call reports its own outcome); NF: non-function values {nil, 0, \"f\", struct{}{}, a channel, a pointer to a function}; " +
 				"each registered through ConvertAndAddFunction / ConvertAndAddCommand with a reflect.MakeFunc probe; for every accepted registration every argument list of length 0-3 (quick) / 0-4 (thorough) over {number 3.7, number -2, number 5000000000 (beyond 32 bits; only compared for parameter kinds it fits), boolean, string} is sent through real script calls (<<call f(..)>>, {f(..)}, <<cmd ..>>); " +
 				"oracle (implications only): registration never panics; non-functions and signatures with a parameter or result outside the bridgeable kinds are refused; if accepted, a call never panics, a count / type mismatch is an error, a matching call delivers the Go conversion of each script value to the declared type and the result (or error) comes back converted; " +
 				"a case is one (signature, argument list, call form); non-trivial = accepted signature",
@@ -39,6 +39,15 @@ type myErr struct{ msg string }
 
 func (e *myErr) Error() string { return e.msg }
 
+// error types that are not pointers: a struct used by value, and an Errno-like number
+type valErr struct{ msg string }
+
+func (e valErr) Error() string { return "valErr " + e.msg }
+
+type errno uintptr
+
+func (e errno) Error() string { return fmt.Sprint("errno ", uintptr(e)) }
+
 var errorType = reflect.TypeOf((*error)(nil)).Elem()
 
 type tinfo struct {
@@ -54,6 +63,7 @@ func c16Types() []tinfo {
 		{reflect.TypeOf(myInt(0)), true, false}, {reflect.TypeOf(myFloat(0)), true, false}, {reflect.TypeOf(myString("")), true, false}, {reflect.TypeOf(myBool(false)), true, false},
 		{reflect.TypeOf(struct{}{}), false, false}, {reflect.TypeOf([]int(nil)), false, false}, {errorType, false, false}, {reflect.TypeOf((*myErr)(nil)), false, false},
 		{reflect.TypeOf((chan error)(nil)), false, false}, {reflect.TypeOf((<-chan error)(nil)), false, false}, {reflect.TypeOf((chan int)(nil)), false, false},
+		{reflect.TypeOf(valErr{}), false, false}, {reflect.TypeOf(errno(0)), false, true},
 	}
 }
 
@@ -132,6 +142,45 @@ func runC16(ctx *report.Ctx) {
 		}
 	}
 	rec(nil, maxArgs)
+	// wide argument lists (for the signatures of part WIDE): n arguments -2 with every one position holding every
+	// value, plus the all -2 lists of every length (count mismatches)
+	nBase := len(argLists)
+	maxWide := report.Pick(ctx, 12, 16)
+	wideLists := map[int][]int{}
+	for n := 3; n <= maxWide+1; n++ {
+		base := make([]scriptArg, n)
+		for i := range base {
+			base[i] = c16ArgValues[1]
+		}
+		wideLists[n] = append(wideLists[n], len(argLists))
+		argLists = append(argLists, append([]scriptArg{}, base...))
+		if n < 4 || n > maxWide {
+			continue
+		}
+		for p := 0; p < n; p++ {
+			for _, v := range c16ArgValues {
+				if v.src == c16ArgValues[1].src {
+					continue
+				}
+				l := append([]scriptArg{}, base...)
+				l[p] = v
+				wideLists[n] = append(wideLists[n], len(argLists))
+				argLists = append(argLists, l)
+			}
+		}
+	}
+	// the argument lists a signature is called with: the complete short ones, unless a part selects others
+	var useLists []int
+	listIndexes := func() []int {
+		if useLists != nil {
+			return useLists
+		}
+		out := make([]int, nBase)
+		for i := range out {
+			out[i] = i
+		}
+		return out
+	}
 	// cached runners: one per argument list, looping
 	fnRunners := map[int]*c16Runner{}
 	cmdRunners := map[int]*c16Runner{}
@@ -304,7 +353,7 @@ func runC16(ctx *report.Ctx) {
 			return
 		}
 		ctx.Count("signatures_accepted", 1)
-		for i := range argLists {
+		for _, i := range listIndexes() {
 			fr := getFn(i)
 			if fr == nil {
 				return
@@ -568,7 +617,7 @@ func runC16(ctx *report.Ctx) {
 			return
 		}
 		ctx.Count("signatures_accepted", 1)
-		for i := range argLists {
+		for _, i := range listIndexes() {
 			cr := getCmd(i)
 			if cr == nil {
 				return
@@ -727,6 +776,41 @@ func runC16(ctx *report.Ctx) {
 			return
 		}
 		testCommand(c, "CR", reflect.FuncOf([]reflect.Type{reflect.TypeOf(myString(""))}, out, false), failing)
+	})
+
+	// WIDE: long parameter lists. n = 4..12 (quick) / 16 (thorough) parameters of type int with one parameter, at every
+	// position, of every other bridgeable type; called with n matching arguments, with every single argument
+	// replaced by every other value, and with n-1 / n+1 arguments
+	var bridgeable []reflect.Type
+	for _, ti := range types {
+		if ti.bridgeable {
+			bridgeable = append(bridgeable, ti.t)
+		}
+	}
+	ctx.Bound("WIDE_parameters", maxWide)
+	part(ctx, "WIDE", -1, func(c *explore.Chooser) {
+		n := 4 + c.Choose(maxWide-3, "nparams")
+		pos := c.Choose(n, "position")
+		if !c.Mine() {
+			return
+		}
+		t := bridgeable[c.Choose(len(bridgeable), "type")]
+		kind := c.Choose(3, "kind")
+		in := make([]reflect.Type, n)
+		for i := range in {
+			in[i] = reflect.TypeOf(int(0))
+		}
+		in[pos] = t
+		useLists = append(append(append([]int{}, wideLists[n]...), wideLists[n-1][0]), wideLists[n+1][0])
+		defer func() { useLists = nil }()
+		switch kind {
+		case 0:
+			testFunction(c, "WIDE", reflect.FuncOf(in, []reflect.Type{reflect.TypeOf(int(0))}, false), false)
+		case 1:
+			testCommand(c, "WIDE", reflect.FuncOf(in, nil, false), false)
+		case 2:
+			testCommand(c, "WIDE", reflect.FuncOf(in, []reflect.Type{errorType}, false), true)
+		}
 	})
 
 	// AB: results are per call: a converted command still running when the host abandons it (RestoreAt), then
